@@ -2,6 +2,7 @@ import Wx.Glob.Glob
 import Wx.Glob.IgnoreFilter
 import Wx.Glob.Discover
 import Wx.Glob.C11Inst
+import Wx.Disc.Concrete
 namespace Wx.Driver.Glob
 open Sp.Glob Sp.IF Sp.Disc Sp.GS
 
@@ -93,6 +94,11 @@ def handleLine (line : String) : String :=
     let ws := if watches.isEmpty then [] else (watches.splitOn "\x1f").map String.toList
     let ex := if explicit.isEmpty then [] else (explicit.splitOn "\x1f").map String.toList
     String.intercalate ";" (((specDiscover t origin.toList ws ex).map String.ofList).toArray.qsort (· < ·)).toList
+  | ["DPROVED", origin, watches, children, igfiles, explicit] =>
+    let t : Tree := { children := parsePairs children, igfiles := parsePairs igfiles }
+    let ws := if watches.isEmpty then [] else (watches.splitOn "\x1f").map String.toList
+    let ex := if explicit.isEmpty then [] else (explicit.splitOn "\x1f").map String.toList
+    String.intercalate ";" (((Dw.discoverB t origin.toList ws ex).map String.ofList).toArray.qsort (· < ·)).toList
   | _ => "bad-op"
 
 
